@@ -324,7 +324,11 @@ func c09Session(t *rapid.T) {
 				step, wantQ, len(want), m.expectedPos(), m.current(), m.sel.Batches, describe(st), strings.Join(s.Capture(), "\n"), strings.Join(history, "\n  "))
 		}
 		// under-specified corner (tracked item vanished, lazy clamp): adopt the observed valid position
+		// (with an empty list fzf reports -1 after a move; the pointer designates nothing then)
 		m.cur.Cy = st.Position
+		if m.cur.Cy < 0 {
+			m.cur.Cy = 0
+		}
 	}
 	// with --track the pointer follows the item that was current while the list was
 	// loading: any valid position is accepted at start
